@@ -445,3 +445,17 @@ Definition verdict (other : Z -> list Z -> bool) (s : rsess) (b : list Z) : list
          end) [] l
     end
   end.
+
+(* ------------------------------------------------------------------ Adj-RIB-In after an UPDATE, RFC 4271 4.3 / 9:
+   the withdrawn routes are removed and the announced ones installed (a later announce of the same route replaces an
+   earlier one); "An UPDATE message SHOULD NOT include the same address prefix in the WITHDRAWN ROUTES and Network Layer
+   Reachability Information fields; however, a BGP speaker MUST be able to process UPDATE messages in this form [and]
+   SHOULD treat [it] as though the WITHDRAWN ROUTES do not contain the address prefix": the announcement stays.
+   `before` is the table as a lookup function, `key` the identity of a route, `same` the equality of keys. *)
+Definition ref_rib_after {N A : Type} (key : N -> list Z) (same : list Z -> list Z -> bool)
+    (before : list Z -> option (N * list Z * A))
+    (announced : list (N * list Z)) (withdrawn : list N) (attrs : A) (k : list Z) : option (N * list Z * A) :=
+  match find (fun a => same (key (fst a)) k) (rev announced) with
+  | Some a => Some (fst a, snd a, attrs)
+  | None => if existsb (fun n => same (key n) k) withdrawn then None else before k
+  end.
